@@ -33,7 +33,7 @@ CONSTANTS
   MaxLevel,   \* bound on behaviour length (safety net)
   Shape,      \* "" or "chain": restricts the trees that are built (checked on the successor state)
   MaxEdits,   \* in-place edits of the built model (0: none); every state after an edit is a case too
-  EditKinds,  \* subset of {"card","addchild","rmkid","replkid","move","reown","import","abs","attrval","rmctc","ctcop","rename"}
+  EditKinds,  \* subset of {"card","addchild","rmkid","replkid","move","reown","import","abs","attrval","attrname","rmattr","rmctc","ctcop","rename"}
   Walks,      \* 0: exhaustive exploration; n > 0: n seeded random walks ("random larger ones")
   Seed        \* seed of the walks (VERIF_SEED)
 
@@ -164,6 +164,12 @@ EditChoices ==
         THEN UNION {{[k |-> "attrval", j |-> a, i |-> i, x |-> v.val, lo |-> 0, hi |-> 0] :
                         a \in DOMAIN model.feats[i].attrs, v \in {v \in AttrVals : v.val # "n"}} : i \in 1..NF}
         ELSE {})
+  \cup (IF "attrname" \in EditKinds
+        THEN UNION {{[k |-> "attrname", j |-> a, i |-> i, x |-> "", lo |-> 0, hi |-> 0] : a \in DOMAIN model.feats[i].attrs} : i \in 1..NF}
+        ELSE {})
+  \cup (IF "rmattr" \in EditKinds
+        THEN UNION {{[k |-> "rmattr", j |-> a, i |-> i, x |-> "", lo |-> 0, hi |-> 0] : a \in DOMAIN model.feats[i].attrs} : i \in 1..NF}
+        ELSE {})
   \cup (IF "rmctc" \in EditKinds
         THEN {[k |-> "rmctc", j |-> 0, i |-> i, x |-> "", lo |-> 0, hi |-> 0] : i \in DOMAIN model.ctcs} ELSE {})
   \cup (IF "ctcop" \in EditKinds
@@ -209,6 +215,13 @@ EditBy(d) ==
             /\ model.feats[d.i].attrs[d.j].val # d.x
             /\ model' = SetAttrValF(model, model.feats[d.i].name, d.j, d.x)
             /\ hist'  = Append(hist, [a |-> "EditAttrVal", f |-> model.feats[d.i].name, k |-> d.j, val |-> d.x])
+       [] d.k = "attrname" ->
+            LET fresh == "a" \o ToString(Len(AttrNames) + 1 + Cardinality({h \in DOMAIN hist : hist[h].a = "EditAttrName"}))
+            IN  /\ model' = SetAttrNameF(model, model.feats[d.i].name, d.j, fresh)
+                /\ hist'  = Append(hist, [a |-> "EditAttrName", f |-> model.feats[d.i].name, k |-> d.j, n |-> fresh])
+       [] d.k = "rmattr" ->
+            /\ model' = RemoveAttrF(model, model.feats[d.i].name, d.j)
+            /\ hist'  = Append(hist, [a |-> "EditRemoveAttr", f |-> model.feats[d.i].name, k |-> d.j])
        [] d.k = "rmctc" ->
             /\ model' = RemoveCtcF(model, d.i)
             /\ hist'  = Append(hist, [a |-> "EditRemoveCtc", i |-> d.i])
